@@ -177,6 +177,11 @@ bool SocketPrivate::readHeaders()
     // use this header - WebSocket requests, for example, do not
     if (requestHeaders.contains("Content-Length")) {
         requestDataTotal = requestHeaders.value("Content-Length").toLongLong();
+
+        // Anything beyond the declared length is not part of this request
+        if (requestDataTotal != -1 && readBuffer.size() > requestDataTotal) {
+            readBuffer.truncate(qMax(requestDataTotal, Q_INT64_C(0)));
+        }
     }
 
     // Indicate that the headers have been parsed
